@@ -167,3 +167,55 @@ func VH_C16_Visibility() {
 	vh.Assert(snap(x) == beforeX, "C16.addressed-repository-changed")
 	vh.Cover("C16.visibility-end")
 }
+
+// VH_C16_ReferrerPages: pages of a split referrers listing that are held in the page
+// cache are only served for the repository and subject they belong to.
+func VH_C16_ReferrerPages() {
+	vhReset()
+	st := vhStore("dir")
+	conf := vhConf(st)
+	conf.API.Referrer.Limit = 700 // two descriptors do not fit on one page
+	s := New(conf)
+	mine := map[string]map[digest.Digest]bool{"a": {}, "b": {}, "a/b": {}}
+	var subj types.Descriptor
+	for _, repo := range []string{"a", "b", "a/b"} {
+		img1, _ := vhTwoImages(s, repo)
+		vhPutManifest(s, repo, "t1", types.MediaTypeOCI1Manifest, img1)
+		subj = vhDesc(types.MediaTypeOCI1Manifest, img1)
+	}
+	// repository a: three referrers of S; b and a/b: one other referrer of the same S
+	for k := 0; k < 3; k++ {
+		a := vhArtifact(k, subj, true)
+		vh.Assert(vhPutManifest(s, "a", a.dig.String(), types.MediaTypeOCI1Manifest, a.body).Status() == 201, "C16.setup")
+		mine["a"][a.dig] = true
+	}
+	for i, repo := range []string{"b", "a/b"} {
+		a := vhArtifact(3+i, subj, true)
+		vh.Assert(vhPutManifest(s, repo, a.dig.String(), types.MediaTypeOCI1Manifest, a.body).Status() == 201, "C16.setup")
+		mine[repo][a.dig] = true
+	}
+	// a client lists the referrers of S in a: the pages are now cached
+	first := vhDo(s, "GET", "/v2/a/referrers/"+subj.Digest.String(), nil, nil, nil)
+	vh.Assert(first.Status() == 200 && first.HeaderMap.Get("Link") != "", "C16.setup-paged")
+	cacheA := vhResponseDigest(s, "a", subj.Digest)
+	// another repository (or another subject) is asked for a page with a's cache digest
+	x := []string{"b", "a/b", "zz", "a"}[vh.Choice("x", 4)]
+	subject := subj.Digest.String()
+	if vh.Bool("otherSubject") {
+		subject = digest.Canonical.FromBytes([]byte("no such subject")).String()
+	}
+	vh.Assume(x != "a" || subject != subj.Digest.String())
+	q := vhQ("cache", cacheA, "page", vh.IntMarker("page"))
+	if vh.Bool("filtered") {
+		q.Set("artifactType", "application/vnd.test.at1")
+	}
+	rec := vhDo(s, "GET", "/v2/"+x+"/referrers/"+subject, q, nil, nil)
+	vh.Tag("asked", x)
+	vh.Assert(!rec.Panicked, "C16.nopanic")
+	idx, ok := vhDecodeIndex(rec.Body)
+	vh.Assert(rec.Status() == 200 && ok, "C16.referrers-status")
+	for _, d := range idx.Manifests {
+		vh.Assert(subject == subj.Digest.String() && mine[x][d.Digest], "C16.referrers-served-from-other-repository")
+	}
+	vh.Cover("C16.referrer-pages-end")
+}
